@@ -9,12 +9,15 @@ functions defined before them, so every program terminates."""
 import random
 
 INT, BOOL, STR, LIST, OBJ, FN = "int", "bool", "str", "list", "obj", "fn"
+CLO, MOBJ = "clo", "mobj"          # zero-argument closure returning an int; object with v / get / inc
+LOCAL = "\0local"                  # key of the set of names declared in the current block
 STRS = ["", "a", "b", "ab", "hé", "x y", "€", "z\n", "q\"", "$", "\\"]
 KEYS = ["a", "b", "k", "B", "_x", "k k", ""]
 
 
 class Gen:
-    def __init__(self, seed, max_stmts=30, max_depth=4, err_rate=0.02):
+    def __init__(self, seed, max_stmts=30, max_depth=4, err_rate=0.02, rich=0.3):
+        self.rich = rich
         self.r = random.Random(seed)
         self.n = 0
         self.max_stmts = max_stmts
@@ -23,6 +26,7 @@ class Gen:
         self.budget = max_stmts
         self.uid = 0
         self.protected = set()     # loop counters: readable, never assigned by the body
+        self.fns = []              # (name, arity) of the functions defined so far
 
     # -- node helpers
     def loc(self):
@@ -80,7 +84,37 @@ class Gen:
 
     # -- expressions by type
     def vars_of(self, env, ty):
-        return [n for n, t in env.items() if t == ty]
+        return [n for n, t in env.items() if t == ty and n != LOCAL]
+
+    def func(self, params, body):
+        return {"t": "func", "loc": self.loc(), "params": [self.var(p) for p in params], "collect": False, "body": body}
+
+    def ret(self, e):
+        return {"t": "return", "loc": self.loc(), "e": e}
+
+    def opassign(self, lhs, op, rhs):
+        return {"t": "opassign", "lhs": lhs, "op": op, "oploc": self.loc(), "rhs": rhs}
+
+    def istr(self, pieces):
+        """pieces: alternating literal text / slot expression, starting and ending with text"""
+        parts = []
+        for i, x in enumerate(pieces):
+            parts.append({"t": "lit", "s": list(x.encode())} if i % 2 == 0 else {"t": "slot", "off": 0, "e": x})
+        return {"t": "istr", "loc": self.loc(), "parts": parts}
+
+    def closure_lit(self, env):
+        """fn() { c += d; return c } over a fresh counter held by an enclosing call"""
+        c = self.fresh("c")
+        inner = self.func([], [self.opassign(self.var(c), "+", self.int_(self.r.randrange(1, 4))), self.ret(self.var(c))])
+        mk = self.func([c], [self.ret(inner)])
+        return self.call(mk, [self.expr(env, INT, 3)])
+
+    def mobj_lit(self, env):
+        this = self.var("this")
+        return self.obj([("v", self.expr(env, INT, 3)),
+                         ("get", self.func([], [self.ret(self.prop(self.var("this"), "v"))])),
+                         ("inc", self.func(["d"], [self.opassign(self.prop(this, "v"), "+", self.var("d")),
+                                                    self.ret(self.prop(self.var("this"), "v"))]))])
 
     def expr(self, env, ty, d=0):
         r = self.r
@@ -90,10 +124,41 @@ class Gen:
         if vs and r.random() < 0.45:
             return self.var(r.choice(vs))
         deep = d < 3
+        if ty == CLO:
+            return self.closure_lit(env)
+        if ty == MOBJ:
+            return self.mobj_lit(env)
+        if ty == INT and deep and r.random() < self.rich * 0.5:
+            cs, ms = self.vars_of(env, CLO), self.vars_of(env, MOBJ)
+            k = r.random()
+            if cs and k < 0.4:
+                return self.call(self.var(r.choice(cs)), [])
+            if ms and k < 0.6:
+                return self.call(self.prop(self.var(r.choice(ms)), "get"), [])
+            if ms and k < 0.8:
+                return self.call(self.index(self.var(r.choice(ms)), self.str_("inc")), [self.int_(r.randrange(0, 3))])
+            if ms:
+                return self.prop(self.var(r.choice(ms)), "v")
+        if ty == STR and deep and r.random() < self.rich * 0.4:
+            # (only one slot may mention variables: values grow linearly at most)
+            n = r.randrange(2, 4)
+            free = r.randrange(0, n)
+            pieces = [r.choice(["", "<", "é", " "])]
+            for i in range(n):
+                if i == free:
+                    e = self.expr(env, STR, d + 1)
+                elif r.random() < 0.5:
+                    e = self.istr([r.choice(["[", ""]), self.str_(r.choice(STRS)), r.choice(["]", "é"])])
+                else:
+                    e = self.str_(r.choice(STRS))
+                pieces += [e, r.choice(["", ">", "-", "€"])]
+            return self.istr(pieces)
         if ty == INT:
             c = r.random()
             if deep and c < 0.35:
                 op = r.choice(["+", "-", "*", "+", "-", "/", "%"])
+                if op in "/%" and r.random() < 0.9:      # (a zero divisor ends the run: keep it rare)
+                    return self.binop(op, self.expr(env, INT, d + 1), self.int_(r.choice([1, 2, 3, 5, -2, 7])))
                 return self.binop(op, self.expr(env, INT, d + 1), self.expr(env, INT, d + 1))
             if deep and c < 0.45 and self.vars_of(env, LIST):
                 return self.index(self.var(r.choice(self.vars_of(env, LIST))), self.int_(r.randrange(0, 3)))
@@ -159,8 +224,9 @@ class Gen:
         return self.null()
 
     # -- statements
-    def block(self, env, depth, in_loop, in_fn, n=None):
+    def block(self, env, depth, in_loop, in_fn, n=None, local=()):
         env = dict(env)
+        env[LOCAL] = set(local)
         out = []
         for _ in range(n if n is not None else self.r.randrange(1, 5)):
             if self.budget <= 0:
@@ -175,18 +241,24 @@ class Gen:
         self.budget -= 1
         c = r.random()
         deep = depth < self.max_depth
+        if r.random() < self.rich:
+            st = self.rich_stmt(env, depth, in_loop, in_fn)
+            if st:
+                return st
         if c < 0.2:
             ty = r.choice([INT, INT, BOOL, STR, LIST, OBJ])
             n = self.fresh()
             e = self.expr(env, ty)
             env[n] = ty
+            env[LOCAL].add(n)
             return [{"t": "declare", "lhs": self.var(n), "rhs": e}]
-        if c < 0.3 and env:
-            n = r.choice(list(env))
+        names = [n for n in env if n != LOCAL]
+        if c < 0.3 and names:
+            n = r.choice(names)
             if env[n] != FN and n not in self.protected:
                 return [{"t": "assign", "lhs": self.var(n), "rhs": self.expr(env, env[n])}]
-        if c < 0.38 and env:
-            n = r.choice(list(env))
+        if c < 0.38 and names:
+            n = r.choice(names)
             if env[n] in (INT, STR, LIST) and n not in self.protected:
                 op = r.choice(["+", "-", "*"]) if env[n] == INT else "+"
                 return [{"t": "opassign", "lhs": self.var(n), "op": op, "oploc": self.loc(),
@@ -208,6 +280,8 @@ class Gen:
             env2 = dict(env)
             env2[i] = INT
             self.protected.add(i)
+            env[LOCAL].add(i)
+            env[i] = INT
             body += self.block(env2, depth + 1, True, in_fn)
             return [{"t": "declare", "lhs": self.var(i), "rhs": self.int_(0)},
                     {"t": "while", "cond": self.binop("<", self.var(i), self.int_(r.randrange(1, 4))), "body": body}]
@@ -228,10 +302,12 @@ class Gen:
             env2 = dict(env)
             for p in ps:
                 env2[p] = INT
-            body = self.block(env2, depth + 1, False, True)
+            body = self.block(env2, depth + 1, False, True, local=ps)
             if r.random() < 0.7:
                 body.append({"t": "return", "loc": self.loc(), "e": self.expr(env2, INT)})
             env[f] = FN
+            env[LOCAL].add(f)
+            self.fns.append((f, len(ps)))
             st = {"t": "fn", "name": self.name(f), "nameloc": self.loc(), "params": [self.var(p) for p in ps],
                   "collect": False, "body": body}
             nargs = len(ps) if r.random() > self.err_rate else len(ps) + 1
@@ -260,13 +336,140 @@ class Gen:
             a, b = self.fresh(), self.fresh()
             env[a] = INT
             env[b] = LIST
+            env[LOCAL].update([a, b])
             return [{"t": "declare", "lhs": self.pat([self.var(a), self.var(b)], collect=True),
                      "rhs": self.var(r.choice(self.vars_of(env, LIST)))}]
         return [self.print_(self.expr(env, INT))]
 
+    def rich_stmt(self, env, depth, in_loop, in_fn):
+        """closures, methods and `this`, shadowing, several targets in one assignment, aliasing,
+        op-assignment and range assignment through index / property, spread calls, object patterns"""
+        r = self.r
+        k = r.randrange(0, 16)
+        local = env[LOCAL]
+        ints = [n for n in self.vars_of(env, INT) if n not in self.protected]
+        lists = self.vars_of(env, LIST)
+        if k == 0:                                   # shadow an outer name in this block
+            outer = [n for n in env if n != LOCAL and n not in local and n not in self.protected and env[n] != FN]
+            if outer:
+                n = r.choice(outer)
+                ty = r.choice([INT, STR, LIST, env[n]])
+                e = self.expr(env, ty)
+                env[n] = ty
+                local.add(n)
+                return [{"t": "declare", "lhs": self.var(n), "rhs": e}, self.print_(self.var(n))]
+        if k == 1:                                   # a counter closure
+            n = self.fresh("ctr")
+            e = self.expr(env, CLO)
+            env[n] = CLO
+            local.add(n)
+            return [{"t": "declare", "lhs": self.var(n), "rhs": e}, self.print_(self.call(self.var(n), []))]
+        if k == 2:                                   # an object with methods
+            n = self.fresh("m")
+            e = self.expr(env, MOBJ)
+            env[n] = MOBJ
+            local.add(n)
+            return [{"t": "declare", "lhs": self.var(n), "rhs": e}]
+        if k == 3 and self.vars_of(env, MOBJ):       # a method moved into a variable, re-assigned, called bare
+            ms = self.vars_of(env, MOBJ)
+            g = self.fresh("g")
+            a, b = r.choice(ms), r.choice(ms)
+            how = r.choice(["prop", "index"])
+            rd = (lambda m: self.prop(self.var(m), "get")) if how == "prop" else \
+                (lambda m: self.index(self.var(m), self.str_("get")))
+            out = [{"t": "declare", "lhs": self.var(g), "rhs": rd(a)}, self.print_(self.call(self.var(g), []))]
+            if r.random() < 0.6:
+                out += [{"t": "assign", "lhs": self.var(g), "rhs": rd(b)}, self.print_(self.call(self.var(g), []))]
+            if r.random() < 0.4:
+                out += [{"t": "assign", "lhs": self.prop(self.var(b), "get"), "rhs": self.prop(self.var(a), "get")},
+                        self.print_(self.call(self.prop(self.var(b), "get"), []))]
+            return out
+        if k == 4 and len(ints) >= 2:                # several targets, possibly in different scopes
+            a, b = r.sample(ints, 2)
+            if r.random() < 0.6:
+                return [{"t": "assign", "lhs": self.pat([self.var(a), self.var(b)]),
+                         "rhs": self.list_([self.var(b), self.binop("+", self.var(a), self.int_(1))])}]
+            return [{"t": "assign", "lhs": self.obj([("p", self.var(a)), ("q", self.var(b))]),
+                     "rhs": self.obj([("q", self.var(a)), ("p", self.var(b))])}]
+        if k == 5 and lists:                         # aliasing through a container
+            n, ys = r.choice(lists), self.fresh("ys")
+            env[ys] = "nested"                       # (never chosen again: no doubling)
+            local.add(ys)
+            return [{"t": "declare", "lhs": self.var(ys), "rhs": self.list_([self.var(n), self.var(n)])},
+                    {"t": "assign", "lhs": self.index(self.index(self.var(ys), self.int_(0)), self.int_(0)),
+                     "rhs": self.expr(env, INT)},
+                    self.print_(self.var(n)),
+                    self.print_(self.binop("===", self.index(self.var(ys), self.int_(1)), self.var(n)))]
+        if k == 6 and lists:                         # op-assignment through an index
+            n = r.choice(lists)
+            return [self.opassign(self.index(self.var(n), self.int_(r.randrange(0, 2))), r.choice(["+", "-", "*"]),
+                                  self.expr(env, INT))]
+        if k == 7 and self.vars_of(env, MOBJ):       # op-assignment through a property
+            m = r.choice(self.vars_of(env, MOBJ))
+            tgt = self.prop(self.var(m), "v") if r.random() < 0.5 else self.index(self.var(m), self.str_("v"))
+            return [self.opassign(tgt, r.choice(["+", "-", "*"]), self.expr(env, INT))]
+        if k == 8 and lists:                         # range assignment
+            n = r.choice(lists)
+            a = r.randrange(0, 2)
+            b = a + r.randrange(0, 3)
+            return [{"t": "assign", "lhs": {"t": "rindex", "loc": self.loc(), "e": self.var(n), "start": self.int_(a),
+                                            "end": self.int_(b)},
+                     "rhs": self.list_([self.expr(env, INT) for _ in range(b - a)])}]
+        if k == 9 and self.fns:                      # a call with a spread argument list
+            f, arity = r.choice(self.fns)
+            if f in env:
+                args = self.list_([self.expr(env, INT) for _ in range(arity)])
+                c = self.call(self.var(f), [args])
+                c["args"][0]["spread"] = True
+                return [self.print_(c)]
+        if k == 10:                                  # object pattern with rest
+            a, rest = self.fresh(), self.fresh("rest")
+            env[a] = INT
+            env[rest] = OBJ
+            local.update([a, rest])
+            src = self.obj([("a", self.expr(env, INT)), ("b", self.expr(env, STR)), ("k k", self.int_(3))])
+            pat = {"t": "object", "loc": self.loc(),
+                   "props": [{"t": "pair", "name": self.str_("a"), "value": self.var(a)},
+                             {"t": "single", "e": self.var(rest), "spread": False, "collect": True}]}
+            return [{"t": "declare", "lhs": pat, "rhs": src}]
+        if k == 11 and ints:                         # a closure over a variable, stored for later
+            v = r.choice(ints)
+            return [self.opassign(self.var("cbs__"), "+",
+                                  self.list_([self.func([], [self.opassign(self.var(v), "+", self.int_(1)),
+                                                             self.ret(self.var(v))])]))]
+        if k == 12:                                  # call every stored closure
+            g = self.fresh("g")
+            return [{"t": "for", "lhs": self.pat([self.var("_"), self.var(g)]), "iter": self.var("cbs__"),
+                     "body": [self.print_(self.call(self.var(g), []))]}]
+        if k == 13 and depth < self.max_depth:       # for over a range with a closure per iteration
+            kk, v = self.fresh("k"), self.fresh("e")
+            env2 = dict(env)
+            env2[kk] = INT
+            env2[v] = INT
+            return [{"t": "for", "lhs": self.pat([self.var(kk), self.var(v)]),
+                     "iter": {"t": "range", "loc": self.loc(), "start": self.int_(r.randrange(0, 3)),
+                              "end": self.int_(r.randrange(2, 5))},
+                     "body": self.block(env2, depth + 1, True, in_fn, local=[kk, v])}]
+        if k == 14:                                  # an anonymous function called in place
+            p = self.fresh("a")
+            env2 = dict(env)
+            env2[p] = INT
+            body = self.block(env2, depth + 1, False, True, local=[p]) + [self.ret(self.expr(env2, INT))]
+            return [self.print_(self.call(self.func([p], body), [self.expr(env, INT)]))]
+        if k == 15 and self.vars_of(env, OBJ):       # spread of an object into a literal, then ==
+            o = r.choice(self.vars_of(env, OBJ))
+            n = self.fresh("o")
+            env[n] = OBJ
+            local.add(n)
+            lit = self.obj([("a", self.expr(env, INT))])
+            lit["props"].insert(r.randrange(0, 2), {"t": "single", "e": self.var(o), "spread": True, "collect": False})
+            return [{"t": "declare", "lhs": self.var(n), "rhs": lit},
+                    self.print_(self.binop("==", self.var(n), self.var(o)))]
+        return None
+
     def program(self):
-        body = []
-        env = {}
+        body = [{"t": "declare", "lhs": self.var("cbs__"), "rhs": self.list_([])}] if self.rich else []
+        env = {LOCAL: set()}
         while self.budget > 0:
             body += self.stmt(env, 0, False, False)
         return body
